@@ -229,7 +229,7 @@ def s5_outputs(ctx):
     # allocation table
     qn = 'BacktestTradingSession.get_target_allocations'
     fn = ctx.fn(qn)
-    ps = summarise(ctx, qn, policy=no_inline)
+    ps = summarise(ctx, qn, policy=props_only)          # properties are how the dates are read (whatever object keeps them); methods stay calls
     seen = set()
     for p in ps:
         if p.outcome != 'return':
